@@ -19,6 +19,7 @@ from typing import Dict, List, Optional, Set
 from .. import astutil as A
 from .. import guards as G
 from .. import instrs as I
+from .. import roles
 from ..model import AnalysisError, dotted, src
 from . import c04
 
@@ -68,6 +69,22 @@ def run(ctx):
         raise AnalysisError("transpile methods not found")
     ctx.fn("NVSubroutineTranspiler.transpile")
     ctx.fn("REIDSSubroutineTranspiler.transpile")
+    # the rules below name the locals of the two transpile() methods by role; which local plays which role is read from the statements
+    roles.normalise(ctx, tp, [
+        "for ($i,$instr) in enumerate(self._subroutine.instructions)",
+        "self._subroutine.instructions=$new_commands",
+        "$index_changes[$i]=len($new_commands)",
+        "$affected_regs=$instr.writes_to()",
+        "for $reg in $affected_regs",
+        "for $op in $instr.operands",
+        "$original_line=$_.line.value",
+        "if $add_no_op_at_end",
+    ], "NVSubroutineTranspiler.transpile")
+    roles.normalise(ctx, rt, [
+        "for $instr in self._subroutine.instructions",
+        "$original_line=$instr.line.value",
+        "if $add_no_op_at_end",
+    ], "REIDSSubroutineTranspiler.transpile")
     # ---- C08.J
     def jump_if(fn):
         for n in ast.walk(fn):
